@@ -372,6 +372,16 @@ func (dtlsr *DTLSR) ReportPeerDisappeared(peer cla.Convergence) {
 		"peer": peerID,
 	}).Debug("PeerID discovered")
 
+	// A peer might be connected through more than one CLA. The link is lost with the last of them.
+	for _, cs := range dtlsr.c.claManager.Sender() {
+		if cs.GetPeerEndpointID() == peerID {
+			log.WithFields(log.Fields{
+				"peer": peerID,
+			}).Debug("Peer is still connected through another CLA")
+			return
+		}
+	}
+
 	dtlsr.dataMutex.Lock()
 	defer dtlsr.dataMutex.Unlock()
 	// set expiration timestamp for peer
